@@ -309,6 +309,15 @@ inductive RangeError (ν : Type) where
 def positionOf (shape : Shape ν) (name : ν) : Option Nat :=
   findPos (fun d => d.1 = name) shape
 
+/-- `dimensions::length_of` (also `Tensor::length_of`, `TensorView::length_of`):
+    `shape.iter().find(|(d, _)| *d == dimension).map(|(_, length)| length)` -/
+def lengthOf (shape : Shape ν) (name : ν) : Option Nat :=
+  (shape.find? fun d => d.1 = name).map (·.2)
+
+/-- `dimensions::last_index_of`: `length_of(..).map(|length| length.saturating_sub(1))` -/
+def lastIndexOf (shape : Shape ν) (name : ν) : Option Nat :=
+  (lengthOf shape name).map (· - 1)
+
 /-- the loop of `from_named_to_all` that scatters the named ranges -/
 def scatterNamed (shape : Shape ν) (provided : List ν) :
     List (ν × IndexRange) → List (Option IndexRange) → Outcome (Except (RangeError ν) (List (Option IndexRange)))
